@@ -107,13 +107,22 @@ def get_variant_information(variant_table: VariantTable, sample: str):
 
 
 def attempt_add_phase_information(
-    alignment, read_to_haplotype, bxtag_to_haplotype, linked_read_cutoff, ignore_linked_read
+    alignment,
+    read_to_haplotype,
+    bxtag_to_haplotype,
+    linked_read_cutoff,
+    ignore_linked_read,
+    sample=None,
 ):
+    """
+    sample -- the sample the alignment belongs to (None if read groups are ignored). Read names
+    and barcodes are only unique within a sample.
+    """
     is_tagged = 0
     haplotype_name = "none"
     phaseset = "none"
     try:
-        haplotype, quality, phaseset = read_to_haplotype[alignment.query_name]
+        haplotype, quality, phaseset = read_to_haplotype[(sample, alignment.query_name)]
         haplotype_name = f"H{haplotype + 1}"
         alignment.set_tag("HP", haplotype + 1)
         alignment.set_tag("PC", quality)
@@ -127,7 +136,7 @@ def attempt_add_phase_information(
             except KeyError:
                 read_clouds = []
             else:  # alignment has BX tag
-                read_clouds = bxtag_to_haplotype[tag]
+                read_clouds = bxtag_to_haplotype[(sample, tag)]
 
             for reference_start, haplotype, phaseset in read_clouds:
                 if abs(reference_start - alignment.reference_start) <= linked_read_cutoff:
@@ -163,17 +172,21 @@ def prepare_haplotag_information(
     ignore_linked_read,
     linked_read_cutoff,
     ploidy,
+    ignore_read_groups=False,
 ):
     """
     Read all reads for this chromosome once to create one core.ReadSet per sample.
     This allows to assign phase to paired-end reads based on both reads
     """
     n_multiple_phase_sets = 0
+    # maps (sample, BX tag) to list of (reference start, haplotype, phaseset)
     BX_tag_to_haplotype = defaultdict(list)
-    # maps read name to (haplotype, quality, phaseset)
+    # maps (sample, read name) to (haplotype, quality, phaseset);
+    # the sample is None if read groups are ignored
     read_to_haplotype = {}
 
     for sample in shared_samples:
+        key_sample = None if ignore_read_groups else sample
         variantpos_to_phaseinfo, variants = get_variant_information(variant_table, sample)
         read_set, _ = phased_input_reader.read(
             variant_table.chromosome, variants, sample, regions=regions
@@ -236,10 +249,12 @@ def prepare_haplotag_information(
                 continue
 
             if not ignore_linked_read and read.has_BX_tag():
-                BX_tag_to_haplotype[read.BX_tag].append((read.reference_start, first_ht, phaseset))
+                BX_tag_to_haplotype[(key_sample, read.BX_tag)].append(
+                    (read.reference_start, first_ht, phaseset)
+                )
 
             for r in reads_to_consider:
-                read_to_haplotype[r.name] = (first_ht, quality, phaseset)
+                read_to_haplotype[(key_sample, r.name)] = (first_ht, quality, phaseset)
                 logger.debug(
                     "Assigned read {} to haplotype {} with a "
                     "quality of {} based on {} covered variants".format(
@@ -529,6 +544,15 @@ def run_haplotag(
         # Check if user has specified a subset of regions per chromosome
         user_regions = normalize_user_regions(regions, bam_reader.references)
 
+        read_group_to_sample = {
+            rg["ID"]: rg.get("SM", "") for rg in bam_reader.header.to_dict().get("RG", [])
+        }
+
+        def alignment_sample(alignment):
+            if ignore_read_groups or not alignment.has_tag("RG"):
+                return None
+            return read_group_to_sample.get(alignment.get_tag("RG"))
+
         include_unmapped = regions is None
         phased_input_reader = stack.enter_context(
             PhasedInputReader(
@@ -605,6 +629,7 @@ def run_haplotag(
                     ignore_linked_read,
                     linked_read_distance_cutoff,
                     ploidy,
+                    ignore_read_groups,
                 )
                 n_multiple_phase_sets += n_mult
             else:
@@ -644,6 +669,7 @@ def run_haplotag(
                             BX_tag_to_haplotype,
                             linked_read_distance_cutoff,
                             ignore_linked_read,
+                            alignment_sample(alignment),
                         )
                         n_tagged += is_tagged
 
